@@ -19,7 +19,8 @@ from vlib import fsstub
 from vlib.hx import RecConsole, fin, param, untraced
 
 DIRS = ["src", ".git", ".cfg", "tests", "build", "node_modules", "venv", "gen", "tmp", "out", "a", "b", "lib", "test"]
-FILES = ["m.py", ".h.py", "n.js", "r.txt", "noext", "x.min.js", "b", "t.ts", "k.java", "c.c", "p.cpp", "s.cs", "tests"]
+FILES = ["m.py", ".h.py", "n.js", "r.txt", "noext", "x.min.js", "b", "t.ts", "k.java", "c.c", "p.cpp", "s.cs", "tests", "SConstruct", "LICENSE"]
+BY_NAME = {"SConstruct": "Python"}     # extension-less names Pygments maps to a supported language
 LANG = {"py": "Python", "js": "JavaScript", "ts": "TypeScript", "java": "Java", "c": "C", "cpp": "C++", "cs": "C#"}
 CFGS = [
     {"config": [], "option": [], "gitignore": None},
@@ -87,6 +88,8 @@ def hidden(rel):
 
 
 def language_of(name):
+    if name in BY_NAME:
+        return BY_NAME[name]
     if "." not in name or name.startswith(".") and name.count(".") == 1:
         return None
     return LANG.get(name.rsplit(".", 1)[1])
